@@ -14,7 +14,7 @@ use crate::geom::{self, Aff, Lattice, P};
 use crate::statejson::{self, Params, ShapeSpec};
 
 pub const TITLE: &str = "Every crystal produced has the symmetry of the requested wallpaper group";
-pub const RULE: &str = "cases = (state kind: hard polygon (regular 3..12 or chiral radial polygon), hard discs (circle, trimer), Lennard-Jones (circle, trimer, or a chiral molecule of 2..4 generated particles)) x group x cell of the group's family (length by density, ratio 0.1..1, angle pi/6..pi/2 only for p1/p2) x site (bound-heavy mixture), optionally followed by an optimisation history (50..1500 steps, 1..8 inner loops, kT 0..0.5, step size up to 1) whose output is re-read from its JSON. Oracle: with the state's actual cell M and the ITA operations (W_k, w_k): M W_k M^-1 is orthogonal (1e-9); the placed shapes shape.transform(p) for p in cartesian_positions(), as point sets (polygon vertices, disc centres with radii), are mapped by every g_k = (M W_k M^-1, M w_k) onto the placed shapes translated by lattice vectors, as a permutation of the copies (1e-9 (1+|t|)). Non-trivial = group order >= 2 and copies pairwise distinct by > 1e-6; distinct by hash of the numbers.";
+pub const RULE: &str = "cases = (state kind: hard polygon (regular 3..12 or chiral radial polygon), hard discs (circle, trimer), Lennard-Jones (circle, trimer, or a chiral molecule of 2..4 generated particles); the library-built shapes (radial polygons, custom molecules) in a unit of length of 1, or 1e-10..1e4 in a fifth of the cases) x group x cell of the group's family (length by density, ratio 0.1..1, angle pi/6..pi/2 only for p1/p2) x site (bound-heavy mixture), optionally followed by an optimisation history (50..1500 steps, 1..8 inner loops, kT 0..0.5, step size up to 1) whose output is re-read from its JSON. Oracle: with the state's actual cell M and the ITA operations (W_k, w_k): M W_k M^-1 is orthogonal (1e-9); the placed shapes shape.transform(p) for p in cartesian_positions(), as point sets (polygon vertices, disc centres with radii), are mapped by every g_k = (M W_k M^-1, M w_k) onto the placed shapes translated by lattice vectors, as a permutation of the copies (1e-9 (1+|t|)). Non-trivial = group order >= 2 and copies pairwise distinct by > 1e-6; distinct by hash of the numbers.";
 
 pub fn assumptions() -> Vec<&'static str> {
     vec!["shapes are compared as point sets of their components, so a symmetric shape mapped onto itself with permuted vertices counts as coinciding (it does in the plane)"]
@@ -49,6 +49,13 @@ pub struct SymCase {
     pub site: (f64, f64, f64),
     pub from_initial: bool,
     pub opt: Option<Opt>,
+    /// unit of length of the shape: radii / positions / sigmas of the library-built shapes are multiplied by this
+    #[serde(default = "one")]
+    pub unit: f64,
+}
+
+fn one() -> f64 {
+    1.0
 }
 
 fn kind_strat() -> BoxedStrategy<Kind> {
@@ -82,8 +89,9 @@ fn strat(with_opt: bool) -> BoxedStrategy<SymCase> {
                 (mixf(-0.5, 0.5, vec![0., 0.25]), mixf(-0.5, 0.5, vec![0., 0.25]), mixf(0., 2. * PI, vec![0., PI, PI / 2.])),
                 any::<bool>(),
                 opt,
+                prop_oneof![4 => Just(1.0f64), 1 => (-10.0..4.0f64).prop_map(|e| 10f64.powf(e))],
             )
-                .prop_map(|(group, kind, per_copy, ratio, angle, site, from_initial, opt)| SymCase { group, kind, per_copy, ratio, angle, site, from_initial, opt })
+                .prop_map(|(group, kind, per_copy, ratio, angle, site, from_initial, opt, unit)| SymCase { group, kind, per_copy, ratio, angle, site, from_initial, opt, unit })
         })
         .boxed()
 }
@@ -114,7 +122,7 @@ pub fn check_symmetry(group: usize, p: &Params, copies: &[(P, PointSet)]) -> Res
         for j in (i + 1)..copies.len() {
             let d = minv.apply(copies[i].0.sub(copies[j].0));
             let dd = P::new(d.x - d.x.round(), d.y - d.y.round());
-            if lat.to_cart(dd).norm() <= 1e-6 {
+            if lat.to_cart(dd).norm() <= 1e-6 * lat.a.min(lat.b) {
                 distinct = false;
             }
         }
@@ -138,7 +146,8 @@ pub fn check_symmetry(group: usize, p: &Params, copies: &[(P, PointSet)]) -> Res
                 'search: for dn in [0., -1., 1.].iter() {
                     for dm in [0., -1., 1.].iter() {
                         let l = lat.to_cart(P::new(f.x.round() + dn, f.y.round() + dm));
-                        let tol = 1e-9 * (1. + gc.norm() + l.norm());
+                        // relative to the size of the structure (the unit of length is arbitrary)
+                        let tol = 1e-9 * (lat.a.min(lat.b) + gc.norm() + l.norm());
                         if gc.sub(c2.add(l)).norm() > tol {
                             continue;
                         }
@@ -245,6 +254,11 @@ fn oracle(c: &SymCase, rec: &Rec, _: &Ctx) -> Result<(), String> {
     }
     let (p, copies, optimised, kind) = match &c.kind {
         Kind::HardLine(s) => {
+            let scaled = match s {
+                ShapeSpec::Radial { radii } if c.unit != 1.0 => ShapeSpec::Radial { radii: radii.iter().map(|r| r * c.unit).collect() },
+                other => other.clone(),
+            };
+            let s = &scaled;
             let shape = statejson::line_shape(s).ok_or("shape")?;
             let (p, cp, o) = go!(PackedState::from_group(shape, &wg).map_err(|e| e.to_string())?, pts_line, true);
             (p, cp, o, "hard-polygon")
@@ -260,7 +274,7 @@ fn oracle(c: &SymCase, rec: &Rec, _: &Ctx) -> Result<(), String> {
             (p, cp, o, "lj")
         }
         Kind::LjCustom(atoms) => {
-            let shape = LJShape2 { name: "custom".to_string(), items: atoms.iter().map(|(x, y, s)| LJ2 { position: Point2::new(*x, *y), sigma: *s, epsilon: 1., cutoff: Some(3.5) }).collect() };
+            let shape = LJShape2 { name: "custom".to_string(), items: atoms.iter().map(|(x, y, s)| LJ2 { position: Point2::new(*x * c.unit, *y * c.unit), sigma: *s * c.unit, epsilon: 1., cutoff: Some(3.5 * c.unit) }).collect() };
             let (p, cp, o) = go!(PotentialState::from_group(shape, &wg).map_err(|e| e.to_string())?, pts_lj, true);
             (p, cp, o, "lj-chiral")
         }
